@@ -12,7 +12,7 @@
    reference semantics up to merging of character tokens, agreement with the Rust code, the tree-builder half, the
    normalisation law tree(x) = tree(normalise x). *)
 From Coq Require Import List NArith Bool.
-From HV Require Import TokIR.IR TokIR.Interp TokIR.Checks TokIR.Chunk TokIR.QueueSim TokIR.ChunkInv Gen.GenXmlTok Inst.InstXmlTok Inst.InstChunk.
+From HV Require Import TokIR.IR TokIR.Interp TokIR.Checks TokIR.Chunk TokIR.QueueSim TokIR.ChunkExec TokIR.ChunkInv Gen.GenXmlTok Inst.InstXmlTok Inst.InstChunk.
 Import ListNotations.
 
 Theorem C15_bulk_sets_adequate : sets_adequate xstate_beq false xml_table = [].
@@ -78,3 +78,23 @@ Theorem C15_chunked_interpreter_is_reference_exact :
   snd r = snd r'.
 Proof. exact (chunked_is_reference_exact xml_flavour xml_table). Qed.
 Print Assumptions C15_chunked_interpreter_is_reference_exact.
+
+(* the chunk-independence theorem at the level of the EXECUTABLE driver (TokIR/ChunkExec.v): two chunkings of one input
+   through drive_flat - push each chunk, feed until done with script pauses injecting text, then end() - reach the same
+   final machine (tokens with parse errors and line numbers, configuration) and the same result of end(), whenever
+   every feed call of both runs ended regularly (done / script / encoding indicator, i.e. no panic value and no fuel
+   exhaustion) and the BOM flag is clear.  With C15_chunked_interpreter_is_reference_exact the same holds of
+   drive_chunked, the interpreter that runs against the Rust code, in exact mode. *)
+Theorem C15_driver_chunking_independent :
+  forall simd ent c1 sk fuel inj cs1 cs2 (m : mach xstate (list N)),
+  J xml_table m ->
+  discard_bom (mc m) = false ->
+  all_nonempty cs1 -> all_nonempty cs2 -> cs1 <> [] -> cs2 <> [] -> concat cs1 = concat cs2 ->
+  all_done (tl (snd (drive_flat xml_flavour true xml_table simd ent c1 sk fuel inj cs1 m []))) ->
+  all_done (tl (snd (drive_flat xml_flavour true xml_table simd ent c1 sk fuel inj cs2 m []))) ->
+  fst (drive_flat xml_flavour true xml_table simd ent c1 sk fuel inj cs1 m []) =
+  fst (drive_flat xml_flavour true xml_table simd ent c1 sk fuel inj cs2 m []) /\
+  hd SSuspend (snd (drive_flat xml_flavour true xml_table simd ent c1 sk fuel inj cs1 m [])) =
+  hd SSuspend (snd (drive_flat xml_flavour true xml_table simd ent c1 sk fuel inj cs2 m [])).
+Proof. exact xml_drive_chunking_independent. Qed.
+Print Assumptions C15_driver_chunking_independent.
